@@ -252,10 +252,22 @@ CLAIMS.update({
     ),
 })
 
-NOT_APPLICABLE = {
-    "C09": "input/output relation of the gophermap line parser against a reference reading of the file; no structural "
-           "invariant short of re-implementing (i.e. running) the parser - static analysis cannot decide it (DESIGN.md section 4)",
-}
+CLAIMS["C09"] = (
+    "9.6",
+    "abstract evaluation (partial evaluation with constant folding, exact loops) of the handler's own line reader on scripted "
+    "gophermap files, with entry objects modelled by the stores into them; return-shape check of getdirlist()",
+    "Decided on representatives only: BuckGophermapHandler.prepare(), as written in the current source, is evaluated by the walker "
+    "on a 14-line gophermap covering the documented line shapes (info line, blank line, text starting with '#', link with 1 to 4 "
+    "fields, missing selector, absolute / relative / URL: selector, remote host with and without port, unparsable port) in three "
+    "directories (a sub-directory, the root, a nested one) and with LF and CRLF line ends: the entry list has one entry per line, in "
+    "file order, each with the documented type, description, selector, host and port; getinfoentry() gives a type-i entry; "
+    "getdirlist() hands every protocol that list. Lines of other shapes, and what the protocols render from the entries (C06), are "
+    "not decided. Nothing is run: the walker interprets the syntax tree on constants and refuses (reports) what it cannot fold.",
+    "Trusted: the walker's folding of str/bytes methods, regular expressions, int() and list operations follows Python's semantics; "
+    "the documented meaning of a line as written in doc/pygopherd.txt and doc/standards/gophermap.txt.",
+)
+
+NOT_APPLICABLE = {}
 
 PENDING_REASON = "check not built yet in this revision (static rules designed in DESIGN.md section 3; will be claimed once the rule module exists)"
 
